@@ -3,12 +3,17 @@
 # the repaired defect must come back as a VIOLATION with its recorded signature.
 cd "$(dirname "$0")/../.."
 ROOT=$(pwd)
-for h in ${@:-cfed176 f914bf1 e0d1353 919a3ea}; do
+# `a+b` reverts commit a, then b (919a3ea can only be reverted after a6412d5, which rewrote the same lines)
+for h in ${@:-cfed176 f914bf1 e0d1353 a6412d5 a6412d5+919a3ea}; do
   rm -rf /tmp/work/mut_C11
-  cp -r /tmp/work/repo_snap9 /tmp/work/mut_C11
-  (cd /tmp/work/mut_C11 && git -C /repo show $h -- snowfakery | patch -R -p1 -s) || { echo "$h: revert failed"; continue; }
+  cp -r /tmp/work/repo_snap10 /tmp/work/mut_C11
+  ok=1
+  for c in ${h//+/ }; do
+    (cd /tmp/work/mut_C11 && git -C /repo show $c -- snowfakery | patch -R -p1 -s) || ok=0
+  done
+  [ $ok = 1 ] || { echo "$h: revert failed"; continue; }
   before=$(ls replays/C11 2>/dev/null | sort)
-  echo "=== revert $h: $(git -C /repo log -1 --format=%s $h)"
+  echo "=== revert $h: $(git -C /repo log -1 --format=%s ${h##*+})"
   VERIF_REPO=/tmp/work/mut_C11 ./check C11 quick 2>&1 | grep "VIOLATION\|^check C11\|KNOWN-FINDING" | cut -c1-200
   for f in $(ls replays/C11 2>/dev/null | sort); do
     if ! echo "$before" | grep -q "$f"; then
@@ -24,4 +29,4 @@ PY
   done
 done
 rm -rf /tmp/work/mut_C11
-VERIF_REPO=/tmp/work/repo_snap9 /venv/bin/python -c "import sys; sys.path.insert(0,'.'); from tools import py2lean; py2lean.regenerate(only=['BoundedFuncs'])"
+VERIF_REPO=/tmp/work/repo_snap10 /venv/bin/python -c "import sys; sys.path.insert(0,'.'); from tools import py2lean; py2lean.regenerate(only=['BoundedFuncs'])"
